@@ -63,6 +63,16 @@ func TestVerifC26PathNorm(t *testing.T) {
 				vfRec{"in": in, "got": got, "want": wantSet})
 		}
 
+		// (2b) Path() is documented as always normalised: also when the URI carries
+		// DisablePathNormalizing (which only affects how the URI is written out)
+		var u3 URI
+		u3.DisablePathNormalizing = true
+		u3.SetPathBytes([]byte(in))
+		if got := string(u3.Path()); got != wantSet {
+			vfViol(c26Key("setpath-nonorm", in), fmt.Sprintf("DisablePathNormalizing; SetPathBytes(%q); Path() = %q, reference %q", in, got, wantSet),
+				vfRec{"in": in, "got": got, "want": wantSet})
+		}
+
 		// (3) Request.SetRequestURI + URI().Path()
 		var req Request
 		req.Header.SetHost("example.com")
